@@ -265,7 +265,10 @@ impl<'a, T: AsRef<str>> Tokenizer<'a, T> {
         }
 
         if let Some(pos) = latest_pos {
-            if let Ok(number) = digits.parse::<f64>() {
+            // A numeral too large for an f64 parses to infinity, which has no
+            // source spelling (it would be listed as `inf`, a symbol), so it is
+            // rejected like any other malformed number.
+            if let Some(number) = digits.parse::<f64>().ok().filter(|n| n.is_finite()) {
                 self.index += pos;
                 Some(Ok(Token::NumericLiteral(number)))
             } else {
